@@ -675,6 +675,16 @@ def _(I, sp, k):
     m = I.deref(sp); kb = _key(I, k)
     if kb in m.d: return False
     m.d[kb] = Agg([k, UNIT], "tuple"); return True
+@summary("<HashSet as Extend>::extend", "HashSet::extend", "<BTreeSet as Extend>::extend")
+def _(I, sp, it):
+    m = I.deref(sp)
+    src = I.deref(it) if type(unwrap_ptr(it)) is Ptr else it
+    items = [e.f[0] for e in src.d.values()] if type(src) is MapObj else iter_to_list(I, it)
+    for k in items:
+        kb = concrete_bytes(as_str(I, k))
+        if kb is None: raise Unsupported("set with symbolic keys")
+        m.d.setdefault(kb, Agg([k, UNIT], "tuple"))
+    return UNIT
 @summary("HashSet::len")
 def _(I, sp): return len(I.deref(sp).d)
 @summary("HashSet::iter", "<&HashSet as IntoIterator>::into_iter")
